@@ -131,14 +131,28 @@ instance : RdM FileM where
     | .ok v => pure v
     | .error e => throw e
 
-/-- proof instance: answers are consumed from a tape in request order; requests are logged -/
-abbrev TapeM := StateM (List (List Rat) × List Req)
+/-- proof instance: answers are consumed from a tape in request order; requests are logged.
+    A plain state-passing monad (no transformer stack), so that generated code unfolds by
+    `run_bind` / `run_pure` rewriting. -/
+def TapeM (α : Type) : Type := (List (List Rat) × List Req) → (α × (List (List Rat) × List Req))
+
+def TapeM.run {α : Type} (x : TapeM α) (s : List (List Rat) × List Req) : α × (List (List Rat) × List Req) := x s
+
+instance : Monad TapeM where
+  pure a := fun s => (a, s)
+  bind x f := fun s => let r := x s; f r.1 r.2
 
 instance : RdM TapeM where
-  rd r := modifyGet fun (s : List (List Rat) × List Req) =>
+  rd r := fun s =>
     match s.1 with
     | a :: rest => (a, (rest, s.2 ++ [r]))
     | [] => ([], ([], s.2 ++ [r]))
+
+@[simp] theorem TapeM.run_pure {α : Type} (a : α) (s) : (pure a : TapeM α).run s = (a, s) := rfl
+@[simp] theorem TapeM.run_bind {α β : Type} (x : TapeM α) (f : α → TapeM β) (s) :
+    (x >>= f).run s = (f (x.run s).1).run (x.run s).2 := rfl
+@[simp] theorem TapeM.run_map {α β : Type} (g : α → β) (x : TapeM α) (s) :
+    (g <$> x).run s = (g (x.run s).1, (x.run s).2) := rfl
 
 /-- natural number carried by a read value -/
 def natOf (l : List Rat) (k : Nat) : Nat := (l.getD k 0).floor.toNat
